@@ -162,7 +162,7 @@ def sites(ctx, bodies):
                 elif msg == "bounds":
                     a = E.operand(t["a"]) if "a" in t else ("const", "?")
                     bb_ = E.operand(t["b"]) if "b" in t else ("const", "?")
-                    add("bounds", "%s,%s" % (short(a, 45), short(bb_, 45)), bi, t["span"], {"a": a, "b": bb_})
+                    add("bounds", "%s,%s" % (short(a, 45), short(bb_, 45)), bi, t["span"], {"a": a, "b": bb_, "a_op": t.get("a"), "b_op": t.get("b")})
                 else:
                     add("assert-" + str(msg), "", bi, t["span"])
     return out
@@ -367,6 +367,17 @@ def classify_loop(ctx, b, cfg, E, h, blocks):
                         from_l = any(a[0] == "agg" and a[1].endswith("RangeFrom") and a[2] and a[2][0] == me for c in finds for a in walk(c))
                         if finds and from_l and any(z not in blocks for z in list(tt["targets"]) + [tt["otherwise"]]):
                             return "advancing-offset", str(min(consts))
+    # counter up to a bound: `while i < n { ..; i += k }` (k >= 1): a loop-carried local that every cycle
+    # through the header increases by a positive constant and that a loop exit compares (`<`, `<=`, `!=`)
+    # with a value not assigned inside the loop
+    r0 = _counting_up(ctx, b, cfg, E, h, blocks)
+    if r0:
+        return r0
+    # shrinking prefix / ancestor walk: the loop-carried value is replaced by a strictly smaller part
+    # of itself: `s = &s[..i]` with i from a search in s (`rfind`, `find`), `p = p.parent()?`
+    r0 = _shrinking_value(ctx, b, cfg, E, h, blocks)
+    if r0:
+        return r0
     # cursor / counter loops: recognise by the statements that change the loop-carried value
     carried = []
     for x in sorted(blocks):
@@ -385,6 +396,128 @@ def classify_loop(ctx, b, cfg, E, h, blocks):
                         if b.blocks[x]["term"] and b.blocks[x]["term"]["k"] == "call"})
         return "unclassified", "calls:" + ",".join(calls)[:160]
     return "unclassified", ";".join(sorted(set(descr)))[:160]
+
+
+def _every_cycle_passes(cfg, h, blocks, x):
+    """every path from the header back to the header (inside the loop) passes block x"""
+    if x == h:
+        return True
+    outside = set(range(cfg.n)) - set(blocks)
+    r = set()
+    for y in cfg.succ[h]:
+        if y in blocks and y != x:
+            r |= cfg.reach(y, avoid=outside | {x, h})
+    return not any(h in cfg.succ[z] for z in r)
+
+
+def _counting_up(ctx, b, cfg, E, h, blocks):
+    for x in sorted(blocks):
+        for s in b.blocks[x]["stmts"]:
+            if s["k"] != "assign" or s["lhs"]["p"]:
+                continue
+            l = s["lhs"]["l"]
+            if not any(d[1] not in blocks for d in b.defs().get(l, [])):
+                continue
+            e = E.rvalue(s["rv"])
+            while e[0] == "proj":
+                e = e[1]
+            if not (e[0] == "bin" and e[1].startswith("Add") and e[3][0] == "const" and isinstance(e[3][1], int) and e[3][1] >= 1 and e[2][0] == "var" and e[2][1] == l):
+                continue
+            # no other assignment of the counter inside the loop
+            if len([d for d in b.defs().get(l, []) if d[1] in blocks]) != 1:
+                continue
+            if not _every_cycle_passes(cfg, h, blocks, x):
+                continue
+            for y in blocks:
+                tt = b.blocks[y]["term"]
+                if not tt or tt["k"] != "switch":
+                    continue
+                ee = E.operand(tt["op"])
+                neg = False
+                while ee[0] == "un" and ee[1] == "Not":
+                    ee = ee[2]
+                    neg = not neg
+                if ee[0] == "bin" and ee[1] in ("Lt", "Le", "Ne", "Gt", "Ge"):
+                    sides = (ee[2], ee[3])
+                    mine = [k for k in (0, 1) if sides[k][0] == "var" and sides[k][1] == l]
+                    if len(mine) != 1:
+                        continue
+                    other = sides[1 - mine[0]]
+                    # the bound is not changed inside the loop
+                    changed = False
+                    for v in walk(other):
+                        if v[0] == "var" and isinstance(v[1], int) and any(d[1] in blocks for d in b.defs().get(v[1], [])) and not (len(v) > 2 and False):
+                            # temporaries recomputed each iteration from loop-invariant inputs are fine (len(v))
+                            ds = [d for d in b.defs().get(v[1], []) if d[1] in blocks]
+                            if any(d[0] == "stmt" and b.locals[v[1]].get("user") for d in ds):
+                                changed = True
+                    if changed:
+                        continue
+                    if any(z not in blocks for z in list(tt["targets"]) + [tt["otherwise"]]):
+                        return "counter-up", "+%d until bound" % e[3][1]
+    return None
+
+
+def _expand_local(b, E, e, blocks, depth=0):
+    """a user variable defined once, inside the loop, is replaced by its definition (`dot_index` in
+    `search_end = dot_index`)"""
+    while e[0] == "proj" and len(e) > 1 and False:
+        e = e[1]
+    if depth < 3 and e[0] == "var" and isinstance(e[1], int):
+        ds = [d for d in b.defs().get(e[1], []) if d[0] in ("stmt", "call")]
+        if len(ds) == 1 and ds[0][1] in blocks:
+            d = ds[0]
+            ev = E.rvalue(d[3]["rv"]) if d[0] == "stmt" else E.call(d[3], d[1])
+            return _expand_local(b, E, ev, blocks, depth + 1)
+    return e
+
+
+def _shrinking_value(ctx, b, cfg, E, h, blocks):
+    for x in sorted(blocks):
+        for s in b.blocks[x]["stmts"]:
+            if s["k"] != "assign" or s["lhs"]["p"]:
+                continue
+            l = s["lhs"]["l"]
+            if not b.locals[l].get("user") or not any(d[1] not in blocks for d in b.defs().get(l, [])):
+                continue
+            if len([d for d in b.defs().get(l, []) if d[1] in blocks]) != 1:
+                continue
+            e = _expand_local(b, E, E.rvalue(s["rv"]), blocks)
+            nm_l = b.local_name(l)
+            txt = render(e, 600)
+
+            def mentions_self(v):
+                return any(y[0] == "var" and y[1] == l for y in walk(v))
+            kind = None
+            for c in walk(e):
+                if c[0] != "call":
+                    continue
+                # p = p.parent()  (strictly fewer components; None at the root leaves the loop)
+                if re.search(r"std::path::Path::parent$", c[1]) and c[2] and mentions_self(c[2][0]):
+                    kind = ("ancestor-walk", "parent()")
+                # s = &s[..i] with i found in s itself
+                if INDEX.search(c[1]) and len(c[2]) >= 2 and mentions_self(c[2][0]):
+                    rng = c[2][1]
+                    if rng[0] == "agg" and rng[1].endswith("RangeTo") and rng[2]:
+                        srch = [y for y in walk(rng[2][0]) if y[0] == "call" and re.search(r"<impl str>::(rfind|find)$", y[1]) and y[2] and mentions_self(y[2][0])]
+                        if srch:
+                            kind = ("shrinking-prefix", "s = &s[..%s(s)]" % srch[0][1].split("::")[-1])
+            if kind is None:
+                # e = position found in s[..e]: the search bound strictly decreases
+                ee = e
+                while ee[0] == "proj" and len(ee) > 1:
+                    ee = ee[1]
+                for c in walk(ee):
+                    if c[0] == "call" and re.search(r"<impl str>::rfind$", c[1]) and c[2]:
+                        rcv = c[2][0]
+                        while rcv[0] == "proj" and len(rcv) > 1:
+                            rcv = rcv[1]
+                        if rcv[0] == "call" and INDEX.search(rcv[1]) and len(rcv[2]) >= 2 and rcv[2][1][0] == "agg" and rcv[2][1][1].endswith("RangeTo") \
+                                and rcv[2][1][2] and any(y[0] == "var" and y[1] == l for y in walk(rcv[2][1][2][0])):
+                            kind = ("shrinking-bound", "e = s[..e].rfind(p)")
+            if kind and _every_cycle_passes(cfg, h, blocks, x):
+                return kind
+    return None
 
 
 def _reaches_header(cfg, y, h, blocks):
